@@ -10,6 +10,8 @@ import ChessVerif.Spec.Rules
 import ChessVerif.Spec.Keys
 import ChessVerif.Spec.Fen
 import ChessVerif.DriverExtra
+import ChessVerif.DriverSearch
+import ChessVerif.Spec.Mate
 open Chess
 
 -- PRNG -------------------------------------------------------------------------------------------
@@ -500,6 +502,29 @@ def genLab (seed n : Nat) (everyMove : Bool) : IO Unit := do
   IO.println s!"ztab {seed}"
   genLabLoop ⟨UInt64.ofNat (seed * 104729 + 7)⟩ n (n * 40) everyMove
 
+/-- positions with a forced mate in 1 or 2 (decided by the spec's exhaustive solver), for C08 -/
+partial def genMatesLoop (r : Rng) (want tries : Nat) : IO Unit := do
+  if want = 0 ∨ tries = 0 then return ()
+  let (r, wk) := r.below 64
+  let b := emptyBoard.set wk 6
+  let (r, bk) := r.below 64
+  let b := putPiece b bk 12
+  let (r, n) := r.below 4
+  let (r, b) := sprinkle r b (n + 2) [5, 4, 4, 5, 3, 2, 1]
+  let (r, m) := r.below 4
+  let (r, b) := sprinkle r b m [7, 7, 8, 9, 10, 7]
+  let (r, flip) := r.below 2
+  let p0 : Spec.SPos := { board := b, side := 0, castling := 0, ep := 64, halfmove := 0, fullmove := 30 }
+  let p := if flip = 0 then p0 else mirrorPos p0
+  if Spec.wf p ∧ !(Spec.legalMoves p).isEmpty then
+    let m1 := !(Spec.mateInOneMoves p).isEmpty
+    let m2 := if m1 then false else (Spec.forcedMate p 2 30000) == some true
+    if m1 ∨ m2 then
+      IO.println ((if m1 then "1 " else "2 ") ++ Spec.toFen p)
+      genMatesLoop r (want - 1) (tries - 1)
+    else genMatesLoop r want (tries - 1)
+  else genMatesLoop r want (tries - 1)
+
 def readLines (path : String) : IO (Array String) := do
   let txt ← IO.FS.readFile path
   return (txt.splitOn "\n").toArray.filter (fun l => l.trimAscii.toString ≠ "" ∧ !l.startsWith "#")
@@ -511,9 +536,13 @@ def main (args : List String) : IO Unit := do
     let T := mkZTable 0
     let mp := ofFen T startFen
     runLoop h { T := T, mp := mp, mstack := [], ss := { cur := Spec.ofFen startFen, past := [] }, sstack := [], x := {} }
+  | ["accept"] =>
+    let h ← IO.getStdin
+    acceptLoop h none
   | ["gen", "play", seed, ngames, maxPlies, detailEvery, fenfile] =>
     let fens ← readLines fenfile
     genPlay seed.toNat! ngames.toNat! maxPlies.toNat! detailEvery.toNat! fens
+  | ["gen", "mates", seed, n] => genMatesLoop ⟨UInt64.ofNat (seed.toNat! * 31337 + 5)⟩ n.toNat! (n.toNat! * 400)
   | ["gen", "lab", seed, n] => genLab seed.toNat! n.toNat! false
   | ["gen", "labfull", seed, n] => genLab seed.toNat! n.toNat! true
   | "gen" :: rest => genExtra rest
